@@ -92,3 +92,10 @@ claim("C08", "sibling agreement of encoder/decoder pairs (endianness, width, ord
       "forwards each io::Write method like-for-like and counts on success only; that Buffer::push records an entry only over the Ok edge of "
       "serialize and within max_entry_size (push_slice tests sizes before copying); that the header carries the serializer's lengths, the payload "
       "checksum and the caller's metadata; WriteZero -> BufferSizeLimit. Codec correctness and value equality are not decided.", "DESIGN.md §4 C08")
+claim("C04", "async-aware ordering rules on the write task (await points, `?` edges), who-may-call rules, recovery decision tables, affine forms",
+      "Decides that per blob the index page is polled only over the success edge of the data write and both results are propagated, at the "
+      "offsets blob start / blob start + part offset of the same block; that the in-memory index is updated only after the block's writes "
+      "succeeded; that tombstones are appended (error propagated) in the single io task of their batch and that flush acknowledgement and marker "
+      "removal happen only in handle_io_complete, called from the one completion site; plus the recovery tables (highest sequence wins, regression "
+      "stops the block, counter restarts strictly above everything, damaged index ends the scan, recover-mode table) and the reclaim order. "
+      "Crash points and torn writes are not enumerated; durability of the device is outside the code.", "DESIGN.md §4 C04")
